@@ -451,17 +451,18 @@ theorem fs_validateControls (M : Nat) (w : World) (oid cid : Nat) (k : PackKind)
         · exact fs_setClient M w _
         · exact (fs_setClient M w _).trans (fs_orderViolation M _ oid _ ((fs_setClient M w _).hasOrder oid ho))
 
-/-- `Transaction.place_order` in a transaction of the market itself -/
-theorem fs_txnPlace (w : World) (t : Txn) (oid : Nat) (v : Option Int) (ex force : Bool) (ho : HasOrder w oid) :
-    FS t.market w (w.txnPlace t oid v ex force).1 := by
+/-- `Transaction.place_order`, through a transaction of ANY market: an order that sits EXECUTION_COMPLETE in M's
+    blotter is refused by the complete-order guard (fix f0672de), any other order of M's blotter is live there -/
+theorem fs_txnPlace (M : Nat) (w : World) (t : Txn) (oid : Nat) (v : Option Int) (ex force : Bool) (ho : HasOrder w oid) :
+    FS M w (w.txnPlace t oid v ex force).1 := by
   unfold txnPlace
   simp only
-  have k0 := fs_modifyOrder t.market w oid (fun o => { o with client := some t.client }) (fun _ => rfl) ⟨rfl, rfl⟩
+  have k0 := fs_modifyOrder M w oid (fun o => { o with client := some t.client }) (fun _ => rfl) ⟨rfl, rfl⟩
   generalize w.modifyOrder oid (fun o => { o with client := some t.client }) = w0 at k0
   have h0 := k0.hasOrder oid ho
-  have k1 : FS t.market w0 (if (ex && !force) = true then w0.validateControls oid t.client .place else (w0, none)).1 := by
+  have k1 : FS M w0 (if (ex && !force) = true then w0.validateControls oid t.client .place else (w0, none)).1 := by
     split
-    · exact fs_validateControls t.market w0 oid t.client .place h0
+    · exact fs_validateControls M w0 oid t.client .place h0
     · exact FS.refl _ w0
   generalize (if (ex && !force) = true then w0.validateControls oid t.client .place else (w0, none)) = vr at k1
   obtain ⟨w1, r⟩ := vr
@@ -474,13 +475,19 @@ theorem fs_txnPlace (w : World) (t : Txn) (oid : Nat) (v : Option Int) (ex force
     split
     · exact k0.trans k1
     · rename_i hnc
-      have hn1 : oid ∉ (w1.market! t.market).blotter := fun hin => hnc (by rw [Bool.or_eq_true]; exact Or.inl (List.contains_iff_mem.mpr hin))
-      have k2 := fs_modifyOrder t.market w1 oid (fun o => { o with publishTime := some (((w1.market! t.market).book).getD {}).pt, marketVersion := v }) (fun _ => rfl) ⟨rfl, rfl⟩
+      rw [Bool.or_eq_true, not_or] at hnc
+      have hn1 : oid ∉ (w1.market! t.market).blotter := fun hin => hnc.1 (List.contains_iff_mem.mpr hin)
+      have hne1 : ¬ EC (w1.order! oid) := by
+        intro he; apply hnc.2; unfold EC at he; rw [he]; rfl
+      have k2 := fs_modifyOrder M w1 oid (fun o => { o with publishTime := some (((w1.market! t.market).book).getD {}).pt, marketVersion := v }) (fun _ => rfl) ⟨rfl, rfl⟩
       have m2 : (w1.modifyOrder oid (fun o => { o with publishTime := some (((w1.market! t.market).book).getD {}).pt, marketVersion := v })).markets = w1.markets := rfl
-      generalize w1.modifyOrder oid (fun o => { o with publishTime := some (((w1.market! t.market).book).getD {}).pt, marketVersion := v }) = w2 at k2 m2
+      have e2 : ((w1.modifyOrder oid (fun o => { o with publishTime := some (((w1.market! t.market).book).getD {}).pt, marketVersion := v })).order! oid).status = (w1.order! oid).status := by
+        rw [order!_modify_self w1 oid _ h1 (by intro x hx; exact hx)]
+      generalize w1.modifyOrder oid (fun o => { o with publishTime := some (((w1.market! t.market).book).getD {}).pt, marketVersion := v }) = w2 at k2 m2 e2
       have h2 := k2.hasOrder oid h1
-      have hn2 : oid ∉ (w2.market! t.market).blotter := by rw [Inv.market!_congr w2 w1 m2 t.market]; exact hn1
-      have k3 := fs_orderUpdateStatus t.market w2 oid .pending h2 (fun _ hb => absurd hb hn2)
+      have hne2 : ¬ EC (w2.order! oid) := by unfold EC; rw [e2]; exact hne1
+      have k3 := fs_orderUpdateStatus M w2 oid .pending h2 (fun hBI hb =>
+        ⟨Or.inl rfl, fun hl => absurd (hBI.live oid hb hl) hne2, fun he => absurd he hne2⟩)
       have m3 : (w2.orderUpdateStatus oid .pending).markets = w1.markets := (orderUpdateStatus_markets w2 oid .pending).trans m2
       have s3 : Sent ((w2.orderUpdateStatus oid .pending).order! oid) := by
         rw [orderUpdateStatus_self w2 oid .pending h2]
@@ -490,7 +497,7 @@ theorem fs_txnPlace (w : World) (t : Txn) (oid : Nat) (v : Option Int) (ex force
       generalize w2.orderUpdateStatus oid .pending = w3 at base m3 s3
       have hn3 : oid ∉ (w3.market! t.market).blotter := by
         rw [Inv.market!_congr w3 w1 m3 t.market]; exact hn1
-      have k4 := fs_blotterAdd t.market w3 t.market oid ((hasOrder_iff w3 oid).mp (base.hasOrder oid ho)) hn3 (fun _ => s3)
+      have k4 := fs_blotterAdd M w3 t.market oid ((hasOrder_iff w3 oid).mp (base.hasOrder oid ho)) hn3 (fun _ => s3)
       split
       · split
         · exact ((base.trans k4).trans (fs_emit _ _ _)).trans (fs_ctxPlace _ _ _ _)
@@ -658,13 +665,13 @@ theorem fs_createReplacement (M : Nat) (w : World) (oid : Nat) (np sz : Rat) (cr
   exact fs_appendOrder M w _ _ rfl rfl rfl (fun _ hp => hp)
 
 
-theorem fs_replacePlace (p : Package) (w : World) (o : Order) (oid : Nat) (book : Book) (np : Option Rat) (sc : Rat) (failed : Nat)
-    (ho : HasOrder w oid) : FS p.market w (replacePlace p w o oid book np sc failed).1 := by
+theorem fs_replacePlace (M : Nat) (p : Package) (w : World) (o : Order) (oid : Nat) (book : Book) (np : Option Rat) (sc : Rat) (failed : Nat)
+    (ho : HasOrder w oid) : FS M w (replacePlace p w o oid book np sc failed).1 := by
   unfold replacePlace
   simp only
-  have k1 := (fs_orderExecutionComplete p.market w oid ho).trans (fs_bumpBetId p.market _)
+  have k1 := (fs_orderExecutionComplete M w oid ho).trans (fs_bumpBetId M _)
   generalize (w.orderExecutionComplete oid).bumpBetId = w1 at k1
-  have k2 := k1.trans (fs_createReplacement p.market w1 oid (np.getD 0) sc p.created)
+  have k2 := k1.trans (fs_createReplacement M w1 oid (np.getD 0) sc p.created)
   have hr := createReplacement_mem w1 oid (np.getD 0) sc p.created
   generalize w1.createReplacement oid (np.getD 0) sc p.created = cr at k2 hr
   obtain ⟨w2, rid⟩ := cr
@@ -672,39 +679,39 @@ theorem fs_replacePlace (p : Package) (w : World) (o : Order) (oid : Nat) (book 
   have hr2 : HasOrder w2 rid := (hasOrder_iff w2 rid).mpr hr
   generalize (w2.order! rid).sim.place p.marketVersion (w2.client! p.client).bpe (w2.client! ((w2.order! rid).client.getD 0)).fullMatch book.view
     ((runnerOf book (w2.order! rid).sel (w2.order! rid).hc).getD { sel := (w2.order! rid).sel }).view false none w2.betId = pr
-  have q3 := fs_modifyOrder p.market w2 rid (fun x => { x with sim := pr.1 }) (fun _ => rfl) ⟨rfl, rfl⟩
+  have q3 := fs_modifyOrder M w2 rid (fun x => { x with sim := pr.1 }) (fun _ => rfl) ⟨rfl, rfl⟩
   have k3 := k2.trans q3
   generalize w2.modifyOrder rid (fun x => { x with sim := pr.1 }) = w3 at k3 q3
   have hr3 := q3.hasOrder rid hr2
   cases pr.2.status with
   | success =>
     simp only
-    have q4 := (fs_modifyOrder p.market w3 rid (fun x => { x with placedAt := some w3.clock, betId := pr.2.betId }) (fun _ => rfl) ⟨rfl, rfl⟩).trans (fs_emit p.market _ (.orderEvent rid))
+    have q4 := (fs_modifyOrder M w3 rid (fun x => { x with placedAt := some w3.clock, betId := pr.2.betId }) (fun _ => rfl) ⟨rfl, rfl⟩).trans (fs_emit M _ (.orderEvent rid))
     have k4 := k3.trans q4
     generalize (w3.modifyOrder rid (fun x => { x with placedAt := some w3.clock, betId := pr.2.betId })).emit (.orderEvent rid) = w4 at k4 q4
     have hr4 := q4.hasOrder rid hr3
-    have q5 := fs_txnPlace w4 { market := p.market, client := o.client.getD ((w4.clients.head?.map (·.id)).getD 0) } rid none false false hr4
-    exact ((k4.trans q5).trans (fs_orderExecutable p.market _ rid (q5.hasOrder rid hr4))).trans (fs_tradeExit p.market _ _)
+    have q5 := fs_txnPlace M w4 { market := p.market, client := o.client.getD ((w4.clients.head?.map (·.id)).getD 0) } rid none false false hr4
+    exact ((k4.trans q5).trans (fs_orderExecutable M _ rid (q5.hasOrder rid hr4))).trans (fs_tradeExit M _ _)
   | failure =>
-    have q4 := fs_orderExecutionComplete p.market w3 rid hr3
-    exact ((k3.trans q4).trans (fs_orderExecutable p.market _ oid ((k3.trans q4).hasOrder oid ho))).trans (fs_tradeExit p.market _ _)
+    have q4 := fs_orderExecutionComplete M w3 rid hr3
+    exact ((k3.trans q4).trans (fs_orderExecutable M _ oid ((k3.trans q4).hasOrder oid ho))).trans (fs_tradeExit M _ _)
 
-theorem fs_replaceStep (p : Package) (acc : World × Nat) (pr : Nat × Option Rat) (ho : HasOrder acc.1 pr.1) :
-    FS p.market acc.1 (replaceStep p acc pr).1 := by
+theorem fs_replaceStep (M : Nat) (p : Package) (acc : World × Nat) (pr : Nat × Option Rat) (ho : HasOrder acc.1 pr.1) :
+    FS M acc.1 (replaceStep p acc pr).1 := by
   obtain ⟨w, failed⟩ := acc
   obtain ⟨oid, newPrice⟩ := pr
   unfold replaceStep
   simp only
-  have k1 := fs_tradeEnter p.market w (w.order! oid).trade
+  have k1 := fs_tradeEnter M w (w.order! oid).trade
   generalize w.tradeEnter (w.order! oid).trade = w1 at k1
   generalize (w.order! oid).sim.cancel (((w1.market! p.market).book).getD {}).status
     (if (w.order! oid).ud.hasReduction then (w.order! oid).ud.sizeReduction else none) = cr
-  have k2 := k1.trans (fs_modifyOrder p.market w1 oid (fun o => { o with sim := cr.1, cancelResponses := o.cancelResponses + 1 }) (fun _ => rfl) ⟨rfl, rfl⟩)
+  have k2 := k1.trans (fs_modifyOrder M w1 oid (fun o => { o with sim := cr.1, cancelResponses := o.cancelResponses + 1 }) (fun _ => rfl) ⟨rfl, rfl⟩)
   generalize w1.modifyOrder oid (fun o => { o with sim := cr.1, cancelResponses := o.cancelResponses + 1 }) = w2 at k2
   have h2 := k2.hasOrder oid ho
   cases cr.2.status with
-  | failure => exact (k2.trans (fs_orderExecutable p.market w2 oid h2)).trans (fs_tradeExit p.market _ _)
-  | success => exact k2.trans (fs_replacePlace p w2 _ oid _ newPrice _ failed h2)
+  | failure => exact (k2.trans (fs_orderExecutable M w2 oid h2)).trans (fs_tradeExit M _ _)
+  | success => exact k2.trans (fs_replacePlace M p w2 _ oid _ newPrice _ failed h2)
 
 /-- a fold whose step is good for the elements of the list that name existing orders -/
 theorem fs_foldl_mem {α} (M : Nat) (f : World → α → World) (key : α → Nat) (l : List α) (w : World)
@@ -725,17 +732,17 @@ theorem fs_foldl_pair_mem {α β} (M : Nat) (f : World × β → α → World ×
     have k := hf acc a (hl a List.mem_cons_self)
     exact k.trans (ih _ (fun x hx => k.hasOrder _ (hl x (List.mem_cons_of_mem _ hx))))
 
-theorem fs_executePackage (w : World) (p : Package) (hp : ∀ oid ∈ p.orders, HasOrder w oid) : FS p.market w (w.executePackage p) := by
+theorem fs_executePackage (M : Nat) (w : World) (p : Package) (hp : ∀ oid ∈ p.orders, HasOrder w oid) : FS M w (w.executePackage p) := by
   have hpo : ∀ oid ∈ w.packageOrders p, HasOrder w oid := fun oid h => hp oid (List.mem_filter.mp h).1
   unfold executePackage
   cases p.kind with
   | place =>
     simp only; unfold executePlace
-    exact (fs_foldl_mem p.market (placeStep p) id _ w (fun w oid h => fs_placeStep p.market p w oid h) hpo).trans (fs_addTransaction _ _ _ _ _)
+    exact (fs_foldl_mem M (placeStep p) id _ w (fun w oid h => fs_placeStep M p w oid h) hpo).trans (fs_addTransaction _ _ _ _ _)
   | cancel =>
     simp only; unfold executeCancel
     simp only
-    have := fs_foldl_pair_mem p.market (cancelStep p) id (w.packageOrders p) (w, 0) (fun acc oid h => fs_cancelStep p.market p acc oid h) hpo
+    have := fs_foldl_pair_mem M (cancelStep p) id (w.packageOrders p) (w, 0) (fun acc oid h => fs_cancelStep M p acc oid h) hpo
     generalize (w.packageOrders p).foldl (cancelStep p) (w, 0) = r at this
     obtain ⟨w1, failed⟩ := r
     simp only at this ⊢
@@ -745,7 +752,7 @@ theorem fs_executePackage (w : World) (p : Package) (hp : ∀ oid ∈ p.orders, 
   | update =>
     simp only; unfold executeUpdate
     simp only
-    have := fs_foldl_pair_mem p.market (updateStep p) id (w.packageOrders p) (w, 0) (fun acc oid h => fs_updateStep p.market p acc oid h) hpo
+    have := fs_foldl_pair_mem M (updateStep p) id (w.packageOrders p) (w, 0) (fun acc oid h => fs_updateStep M p acc oid h) hpo
     generalize (w.packageOrders p).foldl (updateStep p) (w, 0) = r at this
     obtain ⟨w1, failed⟩ := r
     simp only at this ⊢
@@ -761,7 +768,7 @@ theorem fs_executePackage (w : World) (p : Package) (hp : ∀ oid ∈ p.orders, 
       obtain ⟨oid, ho, rfl⟩ := List.mem_map.mp ha
       exact hpo oid (List.mem_filter.mp ho).1
     generalize (((w.packageOrders p).filter fun oid => (w.order! oid).status ≠ some .executionComplete).map fun oid => (oid, (w.order! oid).ud.newPrice)) = zs at hz
-    have := fs_foldl_pair_mem p.market (replaceStep p) (fun a => a.1) zs (w, 0) (fun acc pr h => fs_replaceStep p acc pr h) hz
+    have := fs_foldl_pair_mem M (replaceStep p) (fun a => a.1) zs (w, 0) (fun acc pr h => fs_replaceStep M p acc pr h) hz
     generalize zs.foldl (replaceStep p) (w, 0) = r at this
     obtain ⟨w1, failed⟩ := r
     simp only at this ⊢
@@ -770,30 +777,26 @@ theorem fs_executePackage (w : World) (p : Package) (hp : ∀ oid ∈ p.orders, 
     · exact this.trans (fs_addTransaction _ _ _ _ _)
 
 
-theorem fs_execAll (M : Nat) (l : List Package) (w : World) (hl : ∀ p ∈ l, p.market = M ∧ ∀ oid ∈ p.orders, HasOrder w oid) :
+theorem fs_execAll (M : Nat) (l : List Package) (w : World) (hl : ∀ p ∈ l, ∀ oid ∈ p.orders, HasOrder w oid) :
     FS M w (l.foldl (fun w p => w.executePackage p) w) := by
   induction l generalizing w with
   | nil => exact FS.refl M w
   | cons p ps ih =>
     rw [List.foldl_cons]
-    obtain ⟨hm, ho⟩ := hl p List.mem_cons_self
-    have k : FS M w (w.executePackage p) := hm ▸ fs_executePackage w p ho
-    exact k.trans (ih _ (fun q hq => ⟨(hl q (List.mem_cons_of_mem _ hq)).1, fun oid h => k.hasOrder oid ((hl q (List.mem_cons_of_mem _ hq)).2 oid h)⟩))
+    have k : FS M w (w.executePackage p) := fs_executePackage M w p (hl p List.mem_cons_self)
+    exact k.trans (ih _ (fun q hq oid h => k.hasOrder oid (hl q (List.mem_cons_of_mem _ hq) oid h)))
 
-theorem fs_checkPendingPackages (M : Nat) (w : World) : FS M w (w.checkPendingPackages M) := by
-  refine ⟨keeps_checkPendingPackages w M, fun h => ?_⟩
-  have hl : ∀ p ∈ w.queue.filter (fun p => p.market = M ∧ p.delay < elapsedSeconds w.clock p.created),
-      p.market = M ∧ ∀ oid ∈ p.orders, HasOrder w oid := by
-    intro p hp
-    obtain ⟨hq, hc⟩ := List.mem_filter.mp hp
-    simp only [decide_eq_true_eq] at hc
-    exact ⟨hc.1, fun oid ho => (hasOrder_iff w oid).mpr (h.inv.queue p hq oid ho)⟩
-  have k : FS M w (w.checkPendingPackages M) := by
+theorem fs_checkPendingPackages (M : Nat) (w : World) (mid : Nat) : FS M w (w.checkPendingPackages mid) := by
+  refine ⟨keeps_checkPendingPackages w mid, fun h => ?_⟩
+  have hl : ∀ p ∈ w.queue.filter (fun p => p.market = mid ∧ p.delay < elapsedSeconds w.clock p.created),
+      ∀ oid ∈ p.orders, HasOrder w oid := by
+    intro p hp oid ho
+    exact (hasOrder_iff w oid).mpr (h.inv.queue p (List.mem_filter.mp hp).1 oid ho)
+  have k : FS M w (w.checkPendingPackages mid) := by
     unfold checkPendingPackages
     simp only
     exact (fs_execAll M _ w hl).trans (FS.of_eq rfl rfl (fun p hp => (List.mem_filter.mp hp).1))
   exact k.2 h
-
 
 /-! ### middleware, completion loop, closure -/
 
@@ -996,34 +999,34 @@ theorem fs_processCloseMarket (M : Nat) (w : World) (mid : Nat) (book : Book) : 
     exact ((k.trans k2).trans k3).trans (FS.of_eq rfl rfl (fun _ hp => hp))
 
 
-/-! ### scripted strategy actions and the whole update of market M -/
+/-! ### scripted strategy actions and a whole update (of any market `mid`), seen from market M -/
 
-/-- what is carried through the actions of a callback: the invariant, an open transaction (if any) of this
-    market holding existing orders only -/
-def SOk (M : Nat) (w : World) (b : Option Txn) : Prop := BI M w ∧ BOk w b ∧ (∀ t, b = some t → t.market = M)
+/-- what is carried through the actions of a callback: the invariant and an open transaction (if any) holding
+    existing orders only -/
+def SOk (M : Nat) (w : World) (b : Option Txn) : Prop := BI M w ∧ BOk w b
 
-theorem fin_direct_none (M : Nat) (w : World) (oid c : Nat) (f : World → Txn → World × Txn × ReqResult)
-    (hk : FS M w (f w { market := M, client := c }).1)
-    (hs : (f w { market := M, client := c }).2.1 = { market := M, client := c } ∨
-      (∃ v, (f w { market := M, client := c }).2.1 = { ({ market := M, client := c } : Txn) with pPlace := [] ++ [(oid, v)], pendingOrders := true }) ∨
-      (∃ v, (f w { market := M, client := c }).2.1 = { ({ market := M, client := c } : Txn) with pCancel := [] ++ [(oid, v)], pendingOrders := true }) ∨
-      (∃ v, (f w { market := M, client := c }).2.1 = { ({ market := M, client := c } : Txn) with pUpdate := [] ++ [(oid, v)], pendingOrders := true }) ∨
-      (∃ v, (f w { market := M, client := c }).2.1 = { ({ market := M, client := c } : Txn) with pReplace := [] ++ [(oid, v)], pendingOrders := true }))
+theorem fin_direct_none (M : Nat) (w : World) (mid oid c : Nat) (f : World → Txn → World × Txn × ReqResult)
+    (hk : FS M w (f w { market := mid, client := c }).1)
+    (hs : (f w { market := mid, client := c }).2.1 = { market := mid, client := c } ∨
+      (∃ v, (f w { market := mid, client := c }).2.1 = { ({ market := mid, client := c } : Txn) with pPlace := [] ++ [(oid, v)], pendingOrders := true }) ∨
+      (∃ v, (f w { market := mid, client := c }).2.1 = { ({ market := mid, client := c } : Txn) with pCancel := [] ++ [(oid, v)], pendingOrders := true }) ∨
+      (∃ v, (f w { market := mid, client := c }).2.1 = { ({ market := mid, client := c } : Txn) with pUpdate := [] ++ [(oid, v)], pendingOrders := true }) ∨
+      (∃ v, (f w { market := mid, client := c }).2.1 = { ({ market := mid, client := c } : Txn) with pReplace := [] ++ [(oid, v)], pendingOrders := true }))
     (ho : oid ∈ ids w) (hBI : BI M w) :
-    BI M ((f w { market := M, client := c }).1.txnExit (f w { market := M, client := c }).2.1) ∧
-    Step M w ((f w { market := M, client := c }).1.txnExit (f w { market := M, client := c }).2.1) := by
-  have ht1 : TOk (f w { market := M, client := c }).1 (f w { market := M, client := c }).2.1 :=
-    tok_add _ { market := M, client := c } _ oid ((TOk.fresh w M c).keeps hk.1) (Keeps.mem hk.1 oid ho) hs
+    BI M ((f w { market := mid, client := c }).1.txnExit (f w { market := mid, client := c }).2.1) ∧
+    Step M w ((f w { market := mid, client := c }).1.txnExit (f w { market := mid, client := c }).2.1) := by
+  have ht1 : TOk (f w { market := mid, client := c }).1 (f w { market := mid, client := c }).2.1 :=
+    tok_add _ { market := mid, client := c } _ oid ((TOk.fresh w mid c).keeps hk.1) (Keeps.mem hk.1 oid ho) hs
   exact (hk.trans (fs_txnExit M _ _ ht1)).2 hBI
 
-theorem fin_doAction (M : Nat) (w : World) (batch : Option Txn) (a : Action) (h : SOk M w batch) :
-    SOk M (w.doAction M batch a).1 (w.doAction M batch a).2.1 ∧ Step M w (w.doAction M batch a).1 := by
-  obtain ⟨hBI, hB, hM⟩ := h
-  have hB' := (step_doAction w M batch a hBI.inv hB).2
+theorem fin_doAction (M : Nat) (w : World) (mid : Nat) (batch : Option Txn) (a : Action) (h : SOk M w batch) :
+    SOk M (w.doAction mid batch a).1 (w.doAction mid batch a).2.1 ∧ Step M w (w.doAction mid batch a).1 := by
+  obtain ⟨hBI, hB⟩ := h
+  have hB' := (step_doAction w mid batch a hBI.inv hB).2
   unfold doAction at hB' ⊢
   simp only at hB' ⊢
   split at hB'
-  · rename_i hmiss; rw [if_pos hmiss]; exact ⟨⟨hBI, hB, hM⟩, Step.refl M w⟩
+  · rename_i hmiss; rw [if_pos hmiss]; exact ⟨⟨hBI, hB⟩, Step.refl M w⟩
   · rename_i hmiss
     rw [if_neg hmiss]
     have hin : ∀ tg, a.target? = some tg → tg.resolve w ∈ ids w := by
@@ -1037,7 +1040,7 @@ theorem fin_doAction (M : Nat) (w : World) (batch : Option Txn) (a : Action) (h 
           w'.markets = w.markets → w'.queue = w.queue → BOk w' batch → SOk M w' batch ∧ Step M w w' := by
         intro w' h1 h2 h3 hb
         obtain ⟨b1, s1⟩ := (fs_appendOrder M w w' _ rfl h1 h2 (sub_of_eq h3)).2 hBI
-        exact ⟨⟨b1, hb, hM⟩, s1⟩
+        exact ⟨⟨b1, hb⟩, s1⟩
       cases tr with
       | none => exact hk _ rfl rfl rfl hB'
       | some t => exact hk _ rfl rfl rfl hB'
@@ -1046,20 +1049,14 @@ theorem fin_doAction (M : Nat) (w : World) (batch : Option Txn) (a : Action) (h 
       have hho := (hasOrder_iff w _).mpr ho
       cases batch with
       | some t =>
-        have hk : FS M w (w.txnPlace t (tg.resolve w) v true force).1 := (hM t rfl) ▸ fs_txnPlace w t (tg.resolve w) v true force hho
+        have hk : FS M w (w.txnPlace t (tg.resolve w) v true force).1 := fs_txnPlace M w t (tg.resolve w) v true force hho
         obtain ⟨b1, s1⟩ := hk.2 hBI
-        refine ⟨⟨b1, hB', ?_⟩, s1⟩
-        intro t' ht'
-        have e : (w.txnPlace t (tg.resolve w) v true force).2.1 = t' := Option.some.inj ht'
-        rw [← e]
-        rcases txnPlace_txn w t (tg.resolve w) v true force with h | h <;> rw [h]
-        · exact hM t rfl
-        · exact hM t rfl
+        exact ⟨⟨b1, hB'⟩, s1⟩
       | none =>
-        refine (fun (X : BI M _ ∧ Step M w _) => ⟨⟨X.1, hB', fun t h => by cases h⟩, X.2⟩) ?_
-        exact fin_direct_none M w (tg.resolve w) _ (fun w t => w.txnPlace t (tg.resolve w) v true force) (fs_txnPlace w { market := M, client := _ } (tg.resolve w) v true force hho)
+        refine (fun (X : BI M _ ∧ Step M w _) => ⟨⟨X.1, hB'⟩, X.2⟩) ?_
+        exact fin_direct_none M w mid (tg.resolve w) _ (fun w t => w.txnPlace t (tg.resolve w) v true force) (fs_txnPlace M w { market := mid, client := _ } (tg.resolve w) v true force hho)
           (by
-            rcases txnPlace_txn w { market := M, client := _ } (tg.resolve w) v true force with h | h
+            rcases txnPlace_txn w { market := mid, client := _ } (tg.resolve w) v true force with h | h
             · exact Or.inl h
             · exact Or.inr (Or.inl ⟨v, h⟩)) ho hBI
     | cancel tg red force =>
@@ -1069,18 +1066,12 @@ theorem fin_doAction (M : Nat) (w : World) (batch : Option Txn) (a : Action) (h 
       | some t =>
         have hk : FS M w (w.txnCancel t (tg.resolve w) red force).1 := fs_txnCancel M w t (tg.resolve w) red force hho
         obtain ⟨b1, s1⟩ := hk.2 hBI
-        refine ⟨⟨b1, hB', ?_⟩, s1⟩
-        intro t' ht'
-        have e : (w.txnCancel t (tg.resolve w) red force).2.1 = t' := Option.some.inj ht'
-        rw [← e]
-        rcases txnCancel_txn w t (tg.resolve w) red force with h | h <;> rw [h]
-        · exact hM t rfl
-        · exact hM t rfl
+        exact ⟨⟨b1, hB'⟩, s1⟩
       | none =>
-        refine (fun (X : BI M _ ∧ Step M w _) => ⟨⟨X.1, hB', fun t h => by cases h⟩, X.2⟩) ?_
-        exact fin_direct_none M w (tg.resolve w) _ (fun w t => w.txnCancel t (tg.resolve w) red force) (fs_txnCancel M w { market := M, client := _ } (tg.resolve w) red force hho)
+        refine (fun (X : BI M _ ∧ Step M w _) => ⟨⟨X.1, hB'⟩, X.2⟩) ?_
+        exact fin_direct_none M w mid (tg.resolve w) _ (fun w t => w.txnCancel t (tg.resolve w) red force) (fs_txnCancel M w { market := mid, client := _ } (tg.resolve w) red force hho)
           (by
-            rcases txnCancel_txn w { market := M, client := _ } (tg.resolve w) red force with h | h
+            rcases txnCancel_txn w { market := mid, client := _ } (tg.resolve w) red force with h | h
             · exact Or.inl h
             · exact Or.inr (Or.inr (Or.inl ⟨none, h⟩))) ho hBI
     | update tg pers force =>
@@ -1090,18 +1081,12 @@ theorem fin_doAction (M : Nat) (w : World) (batch : Option Txn) (a : Action) (h 
       | some t =>
         have hk : FS M w (w.txnUpdate t (tg.resolve w) pers force).1 := fs_txnUpdate M w t (tg.resolve w) pers force hho
         obtain ⟨b1, s1⟩ := hk.2 hBI
-        refine ⟨⟨b1, hB', ?_⟩, s1⟩
-        intro t' ht'
-        have e : (w.txnUpdate t (tg.resolve w) pers force).2.1 = t' := Option.some.inj ht'
-        rw [← e]
-        rcases txnUpdate_txn w t (tg.resolve w) pers force with h | h <;> rw [h]
-        · exact hM t rfl
-        · exact hM t rfl
+        exact ⟨⟨b1, hB'⟩, s1⟩
       | none =>
-        refine (fun (X : BI M _ ∧ Step M w _) => ⟨⟨X.1, hB', fun t h => by cases h⟩, X.2⟩) ?_
-        exact fin_direct_none M w (tg.resolve w) _ (fun w t => w.txnUpdate t (tg.resolve w) pers force) (fs_txnUpdate M w { market := M, client := _ } (tg.resolve w) pers force hho)
+        refine (fun (X : BI M _ ∧ Step M w _) => ⟨⟨X.1, hB'⟩, X.2⟩) ?_
+        exact fin_direct_none M w mid (tg.resolve w) _ (fun w t => w.txnUpdate t (tg.resolve w) pers force) (fs_txnUpdate M w { market := mid, client := _ } (tg.resolve w) pers force hho)
           (by
-            rcases txnUpdate_txn w { market := M, client := _ } (tg.resolve w) pers force with h | h
+            rcases txnUpdate_txn w { market := mid, client := _ } (tg.resolve w) pers force with h | h
             · exact Or.inl h
             · exact Or.inr (Or.inr (Or.inr (Or.inl ⟨none, h⟩)))) ho hBI
     | replace tg price v force =>
@@ -1111,63 +1096,55 @@ theorem fin_doAction (M : Nat) (w : World) (batch : Option Txn) (a : Action) (h 
       | some t =>
         have hk : FS M w (w.txnReplace t (tg.resolve w) price v force).1 := fs_txnReplace M w t (tg.resolve w) price v force hho
         obtain ⟨b1, s1⟩ := hk.2 hBI
-        refine ⟨⟨b1, hB', ?_⟩, s1⟩
-        intro t' ht'
-        have e : (w.txnReplace t (tg.resolve w) price v force).2.1 = t' := Option.some.inj ht'
-        rw [← e]
-        rcases txnReplace_txn w t (tg.resolve w) price v force with h | h <;> rw [h]
-        · exact hM t rfl
-        · exact hM t rfl
+        exact ⟨⟨b1, hB'⟩, s1⟩
       | none =>
-        refine (fun (X : BI M _ ∧ Step M w _) => ⟨⟨X.1, hB', fun t h => by cases h⟩, X.2⟩) ?_
-        exact fin_direct_none M w (tg.resolve w) _ (fun w t => w.txnReplace t (tg.resolve w) price v force) (fs_txnReplace M w { market := M, client := _ } (tg.resolve w) price v force hho)
+        refine (fun (X : BI M _ ∧ Step M w _) => ⟨⟨X.1, hB'⟩, X.2⟩) ?_
+        exact fin_direct_none M w mid (tg.resolve w) _ (fun w t => w.txnReplace t (tg.resolve w) price v force) (fs_txnReplace M w { market := mid, client := _ } (tg.resolve w) price v force hho)
           (by
-            rcases txnReplace_txn w { market := M, client := _ } (tg.resolve w) price v force with h | h
+            rcases txnReplace_txn w { market := mid, client := _ } (tg.resolve w) price v force with h | h
             · exact Or.inl h
             · exact Or.inr (Or.inr (Or.inr (Or.inr ⟨v, h⟩)))) ho hBI
-    | batchBegin c => exact ⟨⟨hBI, hB', fun t ht => by rw [← Option.some.inj ht]⟩, Step.refl M w⟩
+    | batchBegin c => exact ⟨⟨hBI, hB'⟩, Step.refl M w⟩
     | batchExecute =>
       cases batch with
       | some t =>
         obtain ⟨b1, s1⟩ := (fs_txnExecute M w t (hB t rfl)).2 hBI
-        exact ⟨⟨b1, hB', fun t' ht' => by rw [← Option.some.inj ht']; exact hM t rfl⟩, s1⟩
-      | none => exact ⟨⟨hBI, hB', hM⟩, Step.refl M w⟩
+        exact ⟨⟨b1, hB'⟩, s1⟩
+      | none => exact ⟨⟨hBI, hB'⟩, Step.refl M w⟩
     | batchEnd =>
       cases batch with
       | some t =>
         obtain ⟨b1, s1⟩ := (fs_txnExit M w t (hB t rfl)).2 hBI
-        exact ⟨⟨b1, hB', fun t h => by cases h⟩, s1⟩
-      | none => exact ⟨⟨hBI, hB', hM⟩, Step.refl M w⟩
+        exact ⟨⟨b1, hB'⟩, s1⟩
+      | none => exact ⟨⟨hBI, hB'⟩, Step.refl M w⟩
 
-
-theorem fs_doActions (M : Nat) (w : World) (as : List Action) : FS M w (w.doActions M as).1 := by
-  refine ⟨keeps_doActions w M as, fun hBI => ?_⟩
+theorem fs_doActions (M : Nat) (w : World) (mid : Nat) (as : List Action) : FS M w (w.doActions mid as).1 := by
+  refine ⟨keeps_doActions w mid as, fun hBI => ?_⟩
   unfold doActions
   simp only
   have h : ∀ (l : List Action) (acc : World × Option Txn × List String), SOk M acc.1 acc.2.1 →
       SOk M (l.foldl (fun (acc : World × Option Txn × List String) a =>
-        ((acc.1.doAction M acc.2.1 a).1, (acc.1.doAction M acc.2.1 a).2.1, acc.2.2 ++ [(acc.1.doAction M acc.2.1 a).2.2])) acc).1
+        ((acc.1.doAction mid acc.2.1 a).1, (acc.1.doAction mid acc.2.1 a).2.1, acc.2.2 ++ [(acc.1.doAction mid acc.2.1 a).2.2])) acc).1
         (l.foldl (fun (acc : World × Option Txn × List String) a =>
-        ((acc.1.doAction M acc.2.1 a).1, (acc.1.doAction M acc.2.1 a).2.1, acc.2.2 ++ [(acc.1.doAction M acc.2.1 a).2.2])) acc).2.1 ∧
+        ((acc.1.doAction mid acc.2.1 a).1, (acc.1.doAction mid acc.2.1 a).2.1, acc.2.2 ++ [(acc.1.doAction mid acc.2.1 a).2.2])) acc).2.1 ∧
       Step M acc.1 (l.foldl (fun (acc : World × Option Txn × List String) a =>
-        ((acc.1.doAction M acc.2.1 a).1, (acc.1.doAction M acc.2.1 a).2.1, acc.2.2 ++ [(acc.1.doAction M acc.2.1 a).2.2])) acc).1 := by
+        ((acc.1.doAction mid acc.2.1 a).1, (acc.1.doAction mid acc.2.1 a).2.1, acc.2.2 ++ [(acc.1.doAction mid acc.2.1 a).2.2])) acc).1 := by
     intro l
     induction l with
     | nil => intro acc h1; exact ⟨h1, Step.refl M _⟩
     | cons a as ih =>
       intro acc h1
       rw [List.foldl_cons]
-      obtain ⟨g1, g2⟩ := fin_doAction M acc.1 acc.2.1 a h1
-      obtain ⟨g3, g4⟩ := ih ((acc.1.doAction M acc.2.1 a).1, (acc.1.doAction M acc.2.1 a).2.1, acc.2.2 ++ [(acc.1.doAction M acc.2.1 a).2.2]) g1
+      obtain ⟨g1, g2⟩ := fin_doAction M acc.1 mid acc.2.1 a h1
+      obtain ⟨g3, g4⟩ := ih ((acc.1.doAction mid acc.2.1 a).1, (acc.1.doAction mid acc.2.1 a).2.1, acc.2.2 ++ [(acc.1.doAction mid acc.2.1 a).2.2]) g1
       exact ⟨g3, g2.trans g4⟩
   have h0 : SOk M (w, (none : Option Txn), ([] : List String)).1 (w, (none : Option Txn), ([] : List String)).2.1 := by
-    refine ⟨hBI, ?_, ?_⟩
-    · intro t ht; cases ht
-    · intro t ht; cases ht
+    refine ⟨hBI, ?_⟩
+    intro t ht; cases ht
   have := h as (w, none, []) h0
   generalize as.foldl _ (w, none, []) = r at this
   obtain ⟨w1, b, outs⟩ := r
-  obtain ⟨⟨b1, b2, _⟩, s1⟩ := this
+  obtain ⟨⟨b1, b2⟩, s1⟩ := this
   cases b with
   | some t =>
     obtain ⟨c1, c2⟩ := (fs_txnExit M w1 t (b2 t rfl)).2 b1
@@ -1180,74 +1157,61 @@ theorem fs_foldl_pair {α β} (M : Nat) (f : World × β → α → World × β)
   | nil => exact FS.refl M _
   | cons a as ih => rw [List.foldl_cons]; exact (hf acc a).trans (ih _)
 
-/-- one update of market M, whatever the strategies do in their callbacks -/
-theorem fs_processMarketBook (M : Nat) (w : World) (book : Book) (script : Nat → List Action) :
-    FS M w (w.processMarketBook M book script).1 := by
+/-- one update of any market `mid`, whatever the strategies do in their callbacks, seen from market M -/
+theorem fs_processMarketBook (M : Nat) (w : World) (mid : Nat) (book : Book) (script : Nat → List Action) :
+    FS M w (w.processMarketBook mid book script).1 := by
   unfold processMarketBook
   simp only
   have k0 : FS M w (w.setClock book.pt) := FS.of_eq rfl rfl (fun _ hp => hp)
   generalize w.setClock book.pt = w0 at k0
-  have k1 : FS M w (if w0.queue.isEmpty = true then w0 else w0.checkPendingPackages M) := by
+  have k1 : FS M w (if w0.queue.isEmpty = true then w0 else w0.checkPendingPackages mid) := by
     split
     · exact k0
-    · exact k0.trans (fs_checkPendingPackages M w0)
-  generalize (if w0.queue.isEmpty = true then w0 else w0.checkPendingPackages M) = w1 at k1
+    · exact k0.trans (fs_checkPendingPackages M w0 mid)
+  generalize (if w0.queue.isEmpty = true then w0 else w0.checkPendingPackages mid) = w1 at k1
   split
-  · exact k1.trans (fs_processCloseMarket M w1 M book)
-  · have k2 : FS M w1 (if (w1.market? M).isNone = true then
-          ({ w1 with markets := w1.markets ++ [({ id := M, book := some book } : Market)] } : World).emit (.marketEvent M)
-        else if (w1.market! M).closed = true then w1.modifyMarket M (fun m => { m with closed := false }) else w1) := by
+  · exact k1.trans (fs_processCloseMarket M w1 mid book)
+  · have k2 : FS M w1 (if (w1.market? mid).isNone = true then
+          ({ w1 with markets := w1.markets ++ [({ id := mid, book := some book } : Market)] } : World).emit (.marketEvent mid)
+        else if (w1.market! mid).closed = true then w1.modifyMarket mid (fun m => { m with closed := false }) else w1) := by
       split
       · rename_i hnone
-        exact (fs_appendMarket M w1 { id := M, book := some book } hnone rfl rfl).trans (fs_emit M _ _)
+        exact (fs_appendMarket M w1 { id := mid, book := some book } hnone rfl rfl).trans (fs_emit M _ _)
       · split
-        · exact fs_modifyMarket M w1 M _ (fun _ => ⟨rfl, rfl, rfl⟩)
+        · exact fs_modifyMarket M w1 mid _ (fun _ => ⟨rfl, rfl, rfl⟩)
         · exact FS.refl M w1
-    generalize (if (w1.market? M).isNone = true then
-          ({ w1 with markets := w1.markets ++ [({ id := M, book := some book } : Market)] } : World).emit (.marketEvent M)
-        else if (w1.market! M).closed = true then w1.modifyMarket M (fun m => { m with closed := false }) else w1) = w2 at k2
-    have k3 := ((k1.trans k2).trans (fs_modifyMarket M w2 M (fun m => { m with book := some book }) (fun _ => ⟨rfl, rfl, rfl⟩))).trans (fs_simulatedMiddleware M _ M)
-    generalize (w2.modifyMarket M (fun m => { m with book := some book })).simulatedMiddleware M = w3 at k3
-    have k4 : FS M w (if (w3.market! M).active = true then w3.processSimulatedOrders M else w3) := by
+    generalize (if (w1.market? mid).isNone = true then
+          ({ w1 with markets := w1.markets ++ [({ id := mid, book := some book } : Market)] } : World).emit (.marketEvent mid)
+        else if (w1.market! mid).closed = true then w1.modifyMarket mid (fun m => { m with closed := false }) else w1) = w2 at k2
+    have k3 := ((k1.trans k2).trans (fs_modifyMarket M w2 mid (fun m => { m with book := some book }) (fun _ => ⟨rfl, rfl, rfl⟩))).trans (fs_simulatedMiddleware M _ mid)
+    generalize (w2.modifyMarket mid (fun m => { m with book := some book })).simulatedMiddleware mid = w3 at k3
+    have k4 : FS M w (if (w3.market! mid).active = true then w3.processSimulatedOrders mid else w3) := by
       split
-      · exact k3.trans (fs_processSimulatedOrders M w3 M)
+      · exact k3.trans (fs_processSimulatedOrders M w3 mid)
       · exact k3
-    generalize (if (w3.market! M).active = true then w3.processSimulatedOrders M else w3) = w4 at k4
+    generalize (if (w3.market! mid).active = true then w3.processSimulatedOrders mid else w3) = w4 at k4
     -- the strategies' callbacks
     refine k4.trans (fs_foldl_pair M _ ?_ _ _)
     intro acc s
     obtain ⟨wa, outs⟩ := acc
     simp only
     split
-    · have : FS M wa (if (w1.market? M).isNone = true then wa.emit (.newMarket s.id M) else wa) := by
+    · have : FS M wa (if (w1.market? mid).isNone = true then wa.emit (.newMarket s.id mid) else wa) := by
         split
         · exact fs_emit M _ _
         · exact FS.refl M _
-      exact (this.trans (fs_emit M _ _)).trans (fs_doActions M _ _)
+      exact (this.trans (fs_emit M _ _)).trans (fs_doActions M _ mid _)
     · exact FS.refl M _
 
-/-- a run of one market: any sequence of its updates -/
-def runMarket (M : Nat) (w : World) (us : List (Book × (Nat → List Action))) : World :=
-  us.foldl (fun w u => (w.processMarketBook M u.1 u.2).1) w
-
-theorem fs_runMarket (M : Nat) (w : World) (us : List (Book × (Nat → List Action))) : FS M w (runMarket M w us) := by
-  unfold runMarket
-  exact fs_foldl M _ (fun w u => fs_processMarketBook M w u.1 u.2) us w
+/-- any run (`Inv.runUpdates`: any markets, in any interleaving), seen from market M -/
+theorem fs_runUpdates (M : Nat) (w : World) (us : List (Nat × Book × (Nat → List Action))) : FS M w (runUpdates w us) := by
+  unfold runUpdates
+  exact fs_foldl M _ (fun w u => fs_processMarketBook M w u.1 u.2.1 u.2.2) us w
 
 theorem bi_empty (M : Nat) (cfg : Config) (cl : List Client) (ss : List Strategy) : BI M { cfg := cfg, clients := cl, strategies := ss } := by
   have hb : (({ cfg := cfg, clients := cl, strategies := ss } : World).market! M).blotter = [] := rfl
   refine ⟨inv_empty cfg cl ss, ?_, ?_⟩
   · intro oid h; rw [hb] at h; cases h
   · intro oid h; rw [hb] at h; cases h
-
-
-/-- a run of one market is a run (`Inv.runUpdates`) all of whose updates carry that market id -/
-theorem runMarket_eq_runUpdates (M : Nat) (w : World) (us : List (Book × (Nat → List Action))) :
-    runMarket M w us = runUpdates w (us.map fun u => (M, u.1, u.2)) := by
-  unfold runMarket runUpdates
-  induction us generalizing w with
-  | nil => rfl
-  | cons u rest ih => rw [List.map_cons, List.foldl_cons, List.foldl_cons]; exact ih _
-
 
 end Flumine.Fin
